@@ -4,23 +4,23 @@ C12 — postconditions of `load_theory_cache`, module import and `load_theory`, 
 -/
 namespace Holpy.C12
 
-variable (W : World) (L : Lib)
+variable (W : World) (L : Lib) (U : Used)
 
 /-- `load_theory(n, lim)` (no injected fault) agrees with the specification -/
 def LoadOk (n : Name) (lim : Limit) (r : Option Err) (s' : State) : Prop :=
   r = none → ∀ k, specLoad W L k n lim ≠ .error .fuel → specLoad W L k n lim = .ok (s'.thy.getD [])
 
 def Post (fault : Option Item) : Call → State → R → Prop
-  | .ltc n, s, r => LtcPost W L n s r
-  | .imp _, s, r => Rel W L s r.2 ∧ r.2.blocks = s.blocks
-  | .load n lim, s, r => Rel W L s r.2 ∧ r.2.blocks = s.blocks ∧ (fault = none → LoadOk W L n lim r.1 r.2)
+  | .ltc n, s, r => LtcPost W L U n s r
+  | .imp _, s, r => Rel W L U s r.2 ∧ r.2.blocks = s.blocks
+  | .load n lim, s, r => Rel W L U s r.2 ∧ r.2.blocks = s.blocks ∧ (fault = none → LoadOk W L n lim r.1 r.2)
 
 def RecOk (fault : Option Item) (rec : Call → State → R) : Prop :=
-  ∀ c s, Inv W L s → Post W L fault c s (rec c s)
+  ∀ c s, Inv W L U s → Post W L U fault c s (rec c s)
 
-theorem lazyStep_post {fault : Option Item} {rec : Call → State → R} (hrec : RecOk W L fault rec) (n : Name) {s : State}
-    (hi : Inv W L s) :
-    Rel W L s (lazyStep W rec n s).2 ∧ (lazyStep W rec n s).2.blocks = s.blocks ∧ (lazyStep W rec n s).2.thy = s.thy := by
+theorem lazyStep_post {fault : Option Item} {rec : Call → State → R} (hrec : RecOk W L U fault rec) (n : Name) {s : State}
+    (hi : Inv W L U s) :
+    Rel W L U s (lazyStep W rec n s).2 ∧ (lazyStep W rec n s).2.blocks = s.blocks ∧ (lazyStep W rec n s).2.thy = s.thy := by
   unfold lazyStep
   cases W.lazyOf n with
   | none => exact ⟨Rel.refl hi, rfl, rfl⟩
@@ -31,13 +31,13 @@ theorem lazyStep_post {fault : Option Item} {rec : Call → State → R} (hrec :
     have hpp := pop_push_thy s _ hb
     exact ⟨((Rel.of_sameCore hi (sameCore_push s)).trans hrel).core_right (sameCore_pop _), hpp.2, hpp.1⟩
 
-theorem ltcMiss_post {fault : Option Item} {rec : Call → State → R} (hrec : RecOk W L fault rec) (n : Name) (e : Entry)
-    {s : State} (hi : Inv W L s) (he : s.entry n = some e) : LtcPost W L n s (ltcMiss W fault rec n e s) := by
+theorem ltcMiss_post {fault : Option Item} {rec : Call → State → R} (hrec : RecOk W L U fault rec) (n : Name) (e : Entry)
+    {s : State} (hi : Inv W L U s) (he : s.entry n = some e) : LtcPost W L U n s (ltcMiss W fault rec n e s) := by
   obtain ⟨T, hT, hTn⟩ := cache_of_entry he
   have himp : L.imps n = some e.imports := by
-    rw [← (hi.2 T hT).2.1 n, hTn]; rfl
+    rw [← (hi.2.1 T hT).2.1 n, hTn]; rfl
   unfold ltcMiss
-  obtain ⟨hl1, hl2, hl3⟩ := lazyStep_post W L hrec n hi
+  obtain ⟨hl1, hl2, hl3⟩ := lazyStep_post W L U hrec n hi
   rcases hls : lazyStep W rec n s with ⟨r1, s1⟩
   rw [hls] at hl1 hl2 hl3
   simp only [] at hl1 hl2 hl3
@@ -47,18 +47,18 @@ theorem ltcMiss_post {fault : Option Item} {rec : Call → State → R} (hrec : 
     simp only []
     have hc1 : s1.cache.isSome := hl1.loaded (by rw [hT]; rfl)
     obtain ⟨T1, hT1⟩ := Option.isSome_iff_exists.mp hc1
-    rw [order_eq W L hl1.inv hT1]
+    rw [order_eq W L U hl1.inv hT1]
     cases hord : L.order e.imports with
     | none => exact ⟨hl1, hl2, hl3, fun h => by simp at h⟩
     | some order =>
       simp only []
-      have hipush : Inv W L s1.push := hl1.inv.of_sameCore (sameCore_push s1)
-      have hloop := loopDeps_post W L (fun p s => rec (.ltc p) s) (fun p s hs => hrec (.ltc p) s hs) order s1.push [] hipush
+      have hipush : Inv W L U s1.push := hl1.inv.of_sameCore (sameCore_push s1)
+      have hloop := loopDeps_post W L U (fun p s => rec (.ltc p) s) (fun p s hs => hrec (.ltc p) s hs) order s1.push [] hipush
       rcases hlp : loopDeps W (fun p s => rec (.ltc p) s) order s1.push [] with ⟨r2, s2, deps⟩
       rw [hlp] at hloop
-      obtain ⟨hr2, hb2, hctx⟩ := hloop
-      simp only [] at hr2 hb2 hctx
-      have hrel2 : Rel W L s s2 := hl1.trans ((Rel.of_sameCore hl1.inv (sameCore_push s1)).trans hr2)
+      obtain ⟨hr2, hb2, hctx, hdp⟩ := hloop
+      simp only [] at hr2 hb2 hctx hdp
+      have hrel2 : Rel W L U s s2 := hl1.trans ((Rel.of_sameCore hl1.inv (sameCore_push s1)).trans hr2)
       cases r2 with
       | some e' =>
         simp only []
@@ -67,15 +67,21 @@ theorem ltcMiss_post {fault : Option Item} {rec : Call → State → R} (hrec : 
       | none =>
         simp only []
         have hc2 : s2.cache.isSome := hr2.loaded hc1
-        have hps := parseStep_post W L fault n e (s.files n).mtime deps (s0 := s1) hr2.inv hc2 hb2 himp order hord
-          (fun k hk => hctx rfl k hk)
+        have hf2 : s2.files = s.files := hrel2.files
+        have hps := parseStep_post W L U fault n e (s.files n).mtime deps (s0 := s1) hr2.inv hc2 hb2 himp order hord
+          (fun k hk => hctx rfl k hk) (by simpa using (hdp rfl).1) (by rw [hf2])
+          (by
+            have := (hdp rfl).2 (by intro d hd; simp at hd)
+            intro d hd
+            have h3 : s2.files = s1.push.files := hr2.files
+            rw [h3]; exact this d hd)
         obtain ⟨hq1, hq2, hq3, hq4⟩ := hps
         exact ⟨hrel2.trans hq1, hq2.trans hl2, hq3.trans hl3, hq4⟩
 
-theorem ltcBody_post {fault : Option Item} {rec : Call → State → R} (hrec : RecOk W L fault rec) (n : Name)
-    {s : State} (hi : Inv W L s) : LtcPost W L n s (ltcBody W fault rec n s) := by
+theorem ltcBody_post {fault : Option Item} {rec : Call → State → R} (hrec : RecOk W L U fault rec) (n : Name)
+    {s : State} (hi : Inv W L U s) : LtcPost W L U n s (ltcBody W fault rec n s) := by
   unfold ltcBody
-  obtain ⟨hm1, hm2, hm3, _⟩ := ensureMeta_post W L hi
+  obtain ⟨hm1, hm2, hm3, _⟩ := ensureMeta_post W L U hi
   rcases hem : ensureMeta s with ⟨r1, s1⟩
   rw [hem] at hm1 hm2 hm3
   simp only [] at hm1 hm2 hm3
@@ -89,17 +95,14 @@ theorem ltcBody_post {fault : Option Item} {rec : Call → State → R} (hrec : 
       simp only []
       by_cases hv : e.valid s1 n = true
       · simp only [hv, if_true]
-        refine ⟨hm1, hm2, hm3, fun _ => ⟨e, he, ?_⟩⟩
-        unfold Entry.valid at hv
-        simp only [Bool.and_eq_true, beq_iff_eq] at hv
-        rw [hv.1]; rfl
+        exact ⟨hm1, hm2, hm3, fun _ => ⟨e, he, hv⟩⟩
       · simp only [hv]
-        obtain ⟨h1, h2, h3, h4⟩ := ltcMiss_post W L hrec n e hm1.inv he
+        obtain ⟨h1, h2, h3, h4⟩ := ltcMiss_post W L U hrec n e hm1.inv he
         exact ⟨hm1.trans h1, h2.trans hm2, h3.trans hm3, h4⟩
 
-theorem runActs_post {fault : Option Item} {rec : Call → State → R} (hrec : RecOk W L fault rec) :
-    ∀ (acts : List Act) (s : State), Inv W L s →
-      Rel W L s (runActs rec acts s).2 ∧ (runActs rec acts s).2.blocks = s.blocks := by
+theorem runActs_post {fault : Option Item} {rec : Call → State → R} (hrec : RecOk W L U fault rec) :
+    ∀ (acts : List Act) (s : State), Inv W L U s →
+      Rel W L U s (runActs rec acts s).2 ∧ (runActs rec acts s).2.blocks = s.blocks := by
   intro acts
   induction acts with
   | nil => intro s hi; exact ⟨Rel.refl hi, rfl⟩
@@ -129,8 +132,8 @@ theorem runActs_post {fault : Option Item} {rec : Call → State → R} (hrec : 
         obtain ⟨h3, h4⟩ := ih s1 h1.inv
         exact ⟨h1.trans h3, h4.trans h2⟩
 
-theorem impBody_post {fault : Option Item} {rec : Call → State → R} (hrec : RecOk W L fault rec) (m : Mod)
-    {s : State} (hi : Inv W L s) : Rel W L s (impBody W rec m s).2 ∧ (impBody W rec m s).2.blocks = s.blocks := by
+theorem impBody_post {fault : Option Item} {rec : Call → State → R} (hrec : RecOk W L U fault rec) (m : Mod)
+    {s : State} (hi : Inv W L U s) : Rel W L U s (impBody W rec m s).2 ∧ (impBody W rec m s).2.blocks = s.blocks := by
   unfold impBody
   by_cases him : s.imported m = true
   · rw [if_pos him]; exact ⟨Rel.refl hi, rfl⟩
@@ -138,7 +141,7 @@ theorem impBody_post {fault : Option Item} {rec : Call → State → R} (hrec : 
     simp only []
     have hsc : SameCore s (State.logEv { s with imported := fun k => if k = m then true else s.imported k } (.execMod m)) :=
       ⟨rfl, rfl, rfl⟩
-    obtain ⟨h1, h2⟩ := runActs_post W L hrec (W.body m) _ (hi.of_sameCore hsc)
+    obtain ⟨h1, h2⟩ := runActs_post W L U hrec (W.body m) _ (hi.of_sameCore hsc)
     rcases hr : runActs rec (W.body m)
         (State.logEv { s with imported := fun k => if k = m then true else s.imported k } (.execMod m)) with ⟨r1, s1⟩
     rw [hr] at h1 h2
@@ -190,9 +193,9 @@ theorem specLoad_eq (n : Name) (lim : Limit) (order : List Name) (content : List
       cases this
       cases lim <;> rfl
 
-theorem loadBody_post {fault : Option Item} {rec : Call → State → R} (hrec : RecOk W L fault rec) (n : Name) (lim : Limit)
-    {s : State} (hi : Inv W L s) :
-    Rel W L s (loadBody W rec n lim s).2 ∧ (loadBody W rec n lim s).2.blocks = s.blocks ∧
+theorem loadBody_post {fault : Option Item} {rec : Call → State → R} (hrec : RecOk W L U fault rec) (n : Name) (lim : Limit)
+    {s : State} (hi : Inv W L U s) :
+    Rel W L U s (loadBody W rec n lim s).2 ∧ (loadBody W rec n lim s).2.blocks = s.blocks ∧
       LoadOk W L n lim (loadBody W rec n lim s).1 (loadBody W rec n lim s).2 := by
   unfold loadBody
   have hp := hrec (.ltc n) s hi
@@ -208,20 +211,20 @@ theorem loadBody_post {fault : Option Item} {rec : Call → State → R} (hrec :
     simp only [he]
     obtain ⟨T, hT, hTn⟩ := cache_of_entry he
     have himp : L.imps n = some e.imports := by
-      rw [← (h1.inv.2 T hT).2.1 n, hTn]; rfl
-    rw [order_eq W L h1.inv hT]
+      rw [← (h1.inv.2.1 T hT).2.1 n, hTn]; rfl
+    rw [order_eq W L U h1.inv hT]
     cases hord : L.order e.imports with
     | none => exact ⟨h1, h2, fun h => by simp at h⟩
     | some order =>
       simp only []
       have hsc : SameCore s1 { s1 with thy := some [] } := ⟨rfl, rfl, rfl⟩
-      have hloop := loopDeps_post W L (fun p s => rec (.ltc p) s) (fun p s hs => hrec (.ltc p) s hs) order
+      have hloop := loopDeps_post W L U (fun p s => rec (.ltc p) s) (fun p s hs => hrec (.ltc p) s hs) order
         { s1 with thy := some [] } [] (h1.inv.of_sameCore hsc)
       rcases hlp : loopDeps W (fun p s => rec (.ltc p) s) order { s1 with thy := some [] } [] with ⟨r2, s2, deps⟩
       rw [hlp] at hloop
-      obtain ⟨hr2, hb2, hctx⟩ := hloop
+      obtain ⟨hr2, hb2, hctx, _⟩ := hloop
       simp only [] at hr2 hb2 hctx
-      have hrel2 : Rel W L s s2 := h1.trans ((Rel.of_sameCore h1.inv hsc).trans hr2)
+      have hrel2 : Rel W L U s s2 := h1.trans ((Rel.of_sameCore h1.inv hsc).trans hr2)
       cases r2 with
       | some e' => exact ⟨hrel2, hb2.trans h2, fun h => by simp at h⟩
       | none =>
@@ -233,9 +236,9 @@ theorem loadBody_post {fault : Option Item} {rec : Call → State → R} (hrec :
           by_cases hn : n ∈ L.names
           · simp only [hn, if_true, Option.some.injEq] at himp; exact himp.symm
           · simp [hn] at himp
-        have htopo : topoCheck L.imps L.names = none := (h1.inv.2 T hT).1
+        have htopo : topoCheck L.imps L.names = none := (h1.inv.2.1 T hT).1
         obtain ⟨e2, he2, hs2⟩ := ((Rel.of_sameCore h1.inv hsc).trans hr2).mono n e he hs
-        have hsp2 := cache_spec W L hr2.inv he2 hs2
+        have hsp2 := cache_spec W L U hr2.inv he2 hs2
         have hord' : L.order (L.imports n) = some order := by rw [← himpn]; exact hord
         have hspec := specLoad_eq W L n lim order e2.content (s2.thy.getD []) htopo hord' hsp2 hctx'
         unfold loadFinish
@@ -267,7 +270,7 @@ theorem loadBody_post {fault : Option Item} {rec : Call → State → R} (hrec :
             exact ⟨hrel2.core_right (sameCore_setThy _ _), hb2.trans h2, fun h => by simp at h⟩
 
 /-- every call of the loader, at every fuel, with or without an injected fault -/
-theorem exec_post (fault : Option Item) : ∀ f, RecOk W L fault (exec W fault f) := by
+theorem exec_post (fault : Option Item) : ∀ f, RecOk W L U fault (exec W fault f) := by
   intro f
   induction f with
   | zero =>
@@ -279,44 +282,10 @@ theorem exec_post (fault : Option Item) : ∀ f, RecOk W L fault (exec W fault f
   | succ f ih =>
     intro c s hi
     cases c with
-    | ltc n => exact ltcBody_post W L ih n hi
-    | imp m => exact impBody_post W L ih m hi
+    | ltc n => exact ltcBody_post W L U ih n hi
+    | imp m => exact impBody_post W L U ih m hi
     | load n lim =>
-      obtain ⟨h1, h2, h3⟩ := loadBody_post W L ih n lim hi
+      obtain ⟨h1, h2, h3⟩ := loadBody_post W L U ih n lim hi
       exact ⟨h1, h2, fun _ => h3⟩
-
-/-! ### histories -/
-
-/-- ops that keep the contents (imports and items) of every file; timestamps are free -/
-def Op.keepsContent : Op → Prop
-  | .edit _ _ _ _ => False
-  | _ => True
-
-theorem step_inv (fuel : Nat) (op : Op) (hk : op.keepsContent) {s : State} (hi : Inv W L s) : Inv W L (step W fuel op s).2 := by
-  cases op with
-  | load n lim fault => exact (exec_post W L fault fuel (.load n lim) s hi).1.inv
-  | imp m => exact (exec_post W L none fuel (.imp m) s hi).1.inv
-  | touch n t =>
-    refine ⟨⟨hi.1.1, fun k => ?_⟩, hi.2⟩
-    simp only [step, setFile]
-    by_cases hkn : k = n
-    · subst hkn; simp only [if_true]; exact hi.1.2 k
-    · simp only [hkn, if_false]; exact hi.1.2 k
-  | edit n imps items t => exact absurd hk (by simp [Op.keepsContent])
-  | reloadMeta => exact (loadMetadata_inv W L hi.1).1
-
-theorem run_inv (fuel : Nat) : ∀ (ops : List Op) (s : State), (∀ o ∈ ops, o.keepsContent) → Inv W L s → Inv W L (run W fuel ops s) := by
-  intro ops
-  induction ops with
-  | nil => intro s _ hi; exact hi
-  | cons op ops ih =>
-    intro s hk hi
-    rw [run]
-    exact ih _ (fun o ho => hk o (List.mem_cons_of_mem _ ho)) (step_inv W L fuel op (hk op (List.mem_cons_self ..)) hi)
-
-theorem init_inv (names : List Name) (files : Name → File) : Inv W (initState names files).lib (initState names files) := by
-  refine ⟨⟨rfl, fun n => ⟨rfl, rfl⟩⟩, ?_⟩
-  intro T hT
-  simp [initState] at hT
 
 end Holpy.C12
